@@ -771,7 +771,7 @@ def _run_json(cmd, env=None, timeout=600):
 
 def c16_plan(pid, tier, seed, t0):
     rnd = random.Random(seed)
-    rundir = os.path.join(o.WORK, "run", "%d-c16" % os.getpid())
+    rundir = o.register_rundir(os.path.join(o.WORK, "run", "%d-c16" % os.getpid()))
     os.makedirs(rundir, exist_ok=True)
     merged = o.merge([])
     obs = merged["observed"]
@@ -950,7 +950,7 @@ PLANS["C16"] = c16_plan
 
 def c17_plan(pid, tier, seed, t0):
     configs = ["n-default", "n-sync", "n-spec", "n-syncspec", "chk"]
-    rundir = os.path.join(o.WORK, "run", "%d-c17" % os.getpid())
+    rundir = o.register_rundir(os.path.join(o.WORK, "run", "%d-c17" % os.getpid()))
     os.makedirs(rundir, exist_ok=True)
     merged = o.merge([])
     staged = {}
